@@ -10,6 +10,7 @@ import (
 	"github.com/tendermint/tendermint/crypto/multisig"
 	"gopkg.in/yaml.v2"
 	"os"
+	"unicode/utf8"
 )
 
 var (
@@ -48,6 +49,11 @@ func (tx StdTx) ValidateBasic() sdk.Error {
 	}
 	if len(stdSigs.Signature) == 0 {
 		return sdk.ErrUnauthorized("empty signature")
+	}
+	// the sign bytes are JSON, which replaces every byte that is not valid UTF-8 by U+FFFD:
+	// such a memo could be changed after signing without invalidating the signature
+	if !utf8.ValidString(tx.Memo) {
+		return sdk.ErrTxDecode("memo is not valid UTF-8")
 	}
 	return nil
 }
